@@ -63,6 +63,20 @@ CLAIMED = {
             "For all 16 names, all r and eps>0: every denominator non-zero, value = published closed form (value 0 at removable singularities), psi(1)=1, 0<=psi<=min(2r,4) for r>0, "
             "clipping limiters vanish for r<=0, unknown names fall back to SUPERBEE, _fsign never returns 0 so every TVD ratio is defined.",
             "§6 C13", "Translator T-lim is trusted to render the Python expressions faithfully (cross-checked numerically each run)."),
+    "C14": ("Lean 4: operator table GENERATED from the dunder methods (T-ops) proved equal to the specification by `decide`; effect certificates GENERATED per operator (T-eff) checked by `decide +kernel` under the once-proved soundness theorem; state-machine theorems for copy/arith; dynamic correspondence",
+            "Every operator and reflected operator of CellVariable and FaceVariable performs the specified numpy operation in the specified operand order on self.domain, a CellVariable "
+            "result carries deepcopy(self.BCs) (table theorems, complete); each operator, copy(), funceval/celleval/faceeval has a checked effect certificate: operands never written, "
+            "result freshly allocated and containing no operand storage (soundness: PyFV.C15.pure_of_safe / returns_fresh / fresh_object_contents); copy/arith results get a fresh BC "
+            "object and are independent in both directions for all later histories (C09.copy_independent). Values, BCs of the result, independence and numpy-scalar/array operands are "
+            "exercised on the real objects.",
+            "§6 C14", "Known finding face-ndarray-operand. User callables passed to funceval/faceeval are assumed not to modify their arguments."),
+    "C15": ("Lean 4: soundness of an effect-certificate checker proved once over a heap semantics (any instruction order, any oracle); one `decide +kernel` certificate check per public function, GENERATED from the Python AST on every run (T-eff); dynamic validation of the translator's alias claims",
+            "For 140 of the 147 translated functions (every term builder, mean, gradient, divergence, boundary term, location variable, operator, solver) the generated certificate passes: "
+            "no input region and no module-level state is ever written (solvePDE: only its solution variable), everything returned is freshly allocated and contains no mesh data or "
+            "input arrays. 7 functions are not certified for documented reasons (constructor adopting a ghost-shaped array and its callers: path-insensitive imprecision; an internal helper) "
+            "and are covered by the dynamic check only. Every observed sharing / modification on random inputs must be permitted by the certificate (validates the translator); "
+            "byte snapshots, repeat-call bit-identity and term reuse over time steps are checked on the real code.",
+            "§6 C15", "T-eff's abstraction rules (numpy view-vs-copy table, callee summaries) are trusted and validated dynamically; callbacks assumed side-effect free."),
     "C16": ("Lean 4 `decide`/∀ theorems over decision tables GENERATED from mesh.py and face.py (translator T-err) and hand-written cascade models, compared exhaustively with the real code",
             "Coordinate and component label tables generated from the property getters/setters equal the documented tables for all 9 classes x 12 labels x get/set; constructor arity "
             "0..7 x both argument forms, term kinds, BoundaryFace coefficient types and all periodic-flag subsets follow the documented exception types; the initial-value shape "
